@@ -164,3 +164,15 @@ Proof.
   - exists s', outs, w'. split; [exact E|]. split; [exact T|]. apply trace_okb_iff. exact T.
 Qed.
 
+(* ---- translator tie, second wave: the two multiplying allocation wrappers of memory_utils.c, as translated
+   from this run's clang AST, hand the configured allocator exactly one request of the model's size, or none ---- *)
+From Coq Require Import ZArith.
+From CB Require Import PMem GenLeafTypes Bridge_leaf_alloc.
+From CBGen Require Import Gen_leaf.
+Theorem C13_code_alloc_multiple : forall a b, a < 2^64 -> b < 2^64 ->
+  g_cbor_alloc_multiple (Z.of_N a) (Z.of_N b) = option_map Z.of_N (alloc_multiple_req 64 a b).
+Proof. exact bridge_alloc_multiple. Qed.
+Theorem C13_code_realloc_multiple : forall a b, a < 2^64 -> b < 2^64 ->
+  g_cbor_realloc_multiple (Z.of_N a) (Z.of_N b) = option_map Z.of_N (alloc_multiple_req 64 a b).
+Proof. exact bridge_realloc_multiple. Qed.
+Print Assumptions C13_code_alloc_multiple.
